@@ -560,7 +560,7 @@ func (in *Inst) LagDiff() (n, at int, prompt, lagged string) {
 		n = len(in.lagged)
 	}
 	for i := 0; i < n; i++ {
-		l := "obs " + shadow.canon(in.lagged[i])
+		l := "obs " + Canon(shadow.canon(in.lagged[i]))
 		// (whether a task's context is done is a fact about the moment of reading, not about the trace)
 		if stripCtxDone(l) != stripCtxDone(in.traceLines[i]) {
 			return n, i, in.traceLines[i], l
